@@ -110,8 +110,10 @@ def invalid_bit():
         unconf = [b for b in range(2, 129) if str(b) not in cfg]
         b = choose('bit', unconf)
         bit1 = choose('bit1', [True, False])
-        data = struct.pack('>I', 30) + b'1240' + bitmap_bytes([2, b], bit1) + b'0512345' + b' ' * 40
-        rp = {'kind': 'bit', 'args': {'bit': b, 'bit1': bit1}}
+        # alone, or together with configured elements above and below it: one unconfigured element makes the file invalid whatever else is set
+        others = choose('others', [[2], [2, 127], [94, 127], [2, 3, 4, 127]])
+        data = struct.pack('>I', 30) + b'1240' + bitmap_bytes(sorted(set(others + [b])), bit1) + b'0512345' + b' ' * 40
+        rp = {'kind': 'bit', 'args': {'bit': b, 'bit1': bit1, 'others': others}}
         core.set_fallback(rp, 'C17/concretised')
         with guard('ipm_info', 'C17/exception', rp):
             info = m.ipm_info(RopeFile(data))
